@@ -149,7 +149,7 @@ class Server(object):
         if app.deframer.buf:
             app.errors.append('client stream ended inside a frame '
                               '(%d stray bytes)' % len(app.deframer.buf))
-        if not conn.server_closed:
+        if not conn.server_closed and not app.beh.get('ignore_fin'):
             conn.server_close()
 
     def on_data(self, conn, data):
